@@ -58,7 +58,7 @@ def res_shape(case):
     sa, sb = tuple(case["sa"]), tuple(case["sb"])
     if case["form"] in ("ew", "ew2", "dotmix"):
         return sb if sa == (0, 0) else sa
-    if case["form"] in ("agg", "aggedit"):
+    if case["form"] in ("agg", "aggedit", "aggin"):
         return (0, 0)
     if sa[0] == 0 and sb[0] == 0: return (0, 0)
     if sa[0] > 0 and sb[0] == 0: return (0, sa[0])
@@ -93,6 +93,10 @@ def numpy_result(case, A, B):
     if f == "dot":
         return np.dot(a, b).tolist()
     flat = a.flatten()
+    if f == "aggin":
+        x = {"sum": flat.sum(), "prod": flat.prod(), "mean": flat.mean()}[case["agg"]]
+        k = float(B)
+        return float({"powbase": lambda: x ** 2, "divright": lambda: k / x, "modright": lambda: k % x, "subright": lambda: k - x, "mulright": lambda: k * x}[op]())
     if op == "sum": return float(flat.sum())
     if op == "prod": return float(flat.prod())
     if op == "mean": return float(flat.mean())
@@ -165,6 +169,13 @@ def run_case(R, case, named, scalar_kind, n_case, mismatch_names=False, result="
             b = make_operand(model, "opb", sb, B, scalar_kind, named)
             f = {"+": lambda x, y: x + y, "-": lambda x, y: x - y, "*": lambda x, y: x * y}
             expr = f[case["op"]](a, f[case["op2"]](b, a)) if case["pos"] == "R" else f[case["op"]](f[case["op2"]](a, b), a)
+        elif case["form"] == "aggin":
+            kk = model.constant("kk"); kk.equation = float(B)
+            two = model.constant("two"); two.equation = 2.0
+            g = {"sum": lambda: a.arr_sum(), "prod": lambda: a.arr_prod(), "mean": lambda: a.arr_mean()}[case["agg"]]()
+            info["aggregate"] = case["agg"]
+            expr = {"powbase": lambda: g ** two, "divright": lambda: kk / g, "modright": lambda: (kk * 1.0) % g, "subright": lambda: kk - g,
+                    "mulright": lambda: kk * g}[case["op"]]()
         elif case["form"] in ("agg", "aggedit"):
             expr = {"sum": lambda: a.arr_sum(), "prod": lambda: a.arr_prod(), "mean": lambda: a.arr_mean(), "median": lambda: a.arr_median(),
                     "variance": lambda: a.arr_stddev(), "size": lambda: a.arr_size(), "rank": lambda: a.arr_rank(int(B))}[case["op"]]()
